@@ -173,6 +173,8 @@ def _run_in_child(task, scen, base, wid, known, timeout):
 def worker_main(wid, arm, repo, base, taskq, resq, known):
     try:
         signal.signal(signal.SIGINT, signal.SIG_IGN)
+        # exceptions in __del__ of half-built objects (deepcopy / unpickle attempts of the object walks) are not results
+        sys.unraisablehook = lambda unraisable: None
         os.environ['TZ'] = 'UTC'
         time.tzset()
         d = _prepare_datadir(base, wid, arm, repo)
